@@ -3,6 +3,7 @@ pub mod hist_sized;
 pub mod hist_sized_ops;
 pub mod hist_thin;
 pub mod sched;
+pub mod sched_thin;
 
 use rt::run::Engine;
 use rt::tok::{Plain16, Plain8, Tok1, Tok16, Tok4, Tok64, Tok8, Tok8b, TokZ};
@@ -53,5 +54,14 @@ pub fn sched_engine(shape: &str, prop: &str, max_ops: usize) -> Box<dyn Engine> 
         "plain16" => Box::new(SchedEngine::<Plain16>::new(prop, max_ops)),
         "tokz" => Box::new(SchedEngine::<TokZ<0>>::new(prop, max_ops)),
         _ => Box::new(SchedEngine::<Tok8>::new(prop, max_ops)),
+    }
+}
+
+pub fn sched_thin_engine(shape: &str, prop: &'static str, max_ops: usize) -> Box<dyn Engine> {
+    use sched_thin::SchedThinEngine;
+    match shape {
+        "1/16" => Box::new(SchedThinEngine::<Tok1, Tok16>::new(prop, max_ops)),
+        "plain" => Box::new(SchedThinEngine::<Plain8, Plain8>::new(prop, max_ops)),
+        _ => Box::new(SchedThinEngine::<Tok8b, Tok8>::new(prop, max_ops)),
     }
 }
